@@ -248,7 +248,7 @@ fn prepare(c: &BrCase, c10: bool) -> Option<Prep> {
 // ------------------------------------------------------------------------------------------
 // a trailing "+" = the same instruction with one extra byte appended to its data (Anchor ignores
 // trailing bytes, so it dispatches identically; validators that compare whole data would not)
-pub const C10_SYMS: &[&str] = &["cb", "sA", "sV", "eA", "eV", "wA", "rA", "bA", "dA", "irW", "kr", "js", "sd", "un", "fsA", "feA", "p:sA", "p:eA", "p:wA", "p:rA", "wBig", "sA+", "sV+", "eA+", "eA0", "sA1", "sA2", "sdF", "edF"];
+pub const C10_SYMS: &[&str] = &["cb", "sA", "sV", "eA", "eV", "wA", "rA", "bA", "dA", "irW", "kr", "js", "sd", "un", "fsA", "feA", "p:sA", "p:eA", "p:wA", "p:rA", "wBig", "sA+", "sV+", "eA+", "eA0", "sA1", "sA2", "sdF", "edF", "rAllA", "eAx"];
 // "feV&A" = end for account V with account U appended as a trailing (ignored) remaining account;
 // "feA0" / "feA1" = a genuine end for U whose observation accounts are missing altogether / lack the borrowed bank
 // (the risk engine cannot be built: the end must fail, never pass unchecked)
@@ -332,6 +332,10 @@ fn build_ix(p: &Prep, sym: &str) -> Instruction {
         "wA" => w.ix_withdraw_with(ua, p.l.auth, ab, p.l.tokens[ab], p.w_amt, None, w.risk_metas(&ua, None, None)),
         "wBig" => w.ix_withdraw_with(ua, p.l.auth, ab, p.l.tokens[ab], p.w_amt.saturating_mul(3), None, w.risk_metas(&ua, None, None)),
         "rA" => w.ix_repay(ua, p.l.auth, lb, p.l.tokens[lb], p.r_amt, None),
+        // the liquidator repays U's WHOLE debt (closes the balance); the matching end lists no observation accounts for
+        // the closed balance
+        "rAllA" => w.ix_repay(ua, p.l.auth, lb, p.l.tokens[lb], 0, Some(true)),
+        "eAx" => w.ix_end_liquidation(ua, p.l.auth, w.risk_metas(&ua, None, Some(w.banks[lb].key))),
         "bA" => w.ix_borrow_with(ua, p.l.auth, lb, p.l.tokens[lb], p.small_borrow, risk_u),
         "dA" => w.ix_deposit(ua, if sym == "dA" && p.w_amt % 2 == 0 { p.l.auth } else { p.u.auth }, ab, if p.w_amt % 2 == 0 { p.l.tokens[ab] } else { p.u.tokens[ab] }, 1000, None),
         "irW" => w.ix_init_liq_record(w.users[0].accts[0], p.l.auth),
@@ -434,12 +438,12 @@ fn in_c10_language(shape: &[&str]) -> bool {
     if i >= shape.len() || !(shape[i] == "sA" || shape[i] == "sA+" || shape[i] == "sA1" || shape[i] == "sA2") {
         return false;
     }
-    if !matches!(*shape.last().unwrap(), "eA" | "eA+" | "eA0") {
+    if !matches!(*shape.last().unwrap(), "eA" | "eA+" | "eA0" | "eAx") {
         return false;
     }
     for s in &shape[i + 1..shape.len() - 1] {
         match *s {
-            "wA" | "wBig" | "rA" | "irW" | "cb" | "kr" | "js" => {}
+            "wA" | "wBig" | "rA" | "rAllA" | "irW" | "cb" | "kr" | "js" => {}
             // Conservative reading (DESIGN.md C10 CR): "none via CPI" is asserted for the start and the
             // end; a withdraw / repay of this program reached through an allow-listed top-level
             // program is still only a withdraw / repay and is counted, not alarmed.
@@ -813,7 +817,7 @@ pub fn run_case(c: &BrCase, c10: bool, stats: &mut Stats, shard: Option<(usize, 
     Ok(())
 }
 
-const RULE_C10: &str = "per generated world (2 banks; generated decimals, token programs, weights, oracles; a borrower steered to a generated maintenance health, mostly liquidatable, sometimes healthy; liquidation records created): EXHAUSTIVE enumeration of all transaction shapes up to the stated length over the 29-symbol alphabet (incl. trailing-byte variants of start/end, a start whose observation accounts lack the collateral bank an end without observation accounts, and a deleverage start / end run by the risk admin of an unrelated group) {compute-budget, start(U), start(V), end(U), end(V), withdraw(U) by third party, big withdraw, repay(U), borrow(U), deposit(U), init-record, kamino-refresh (whitelisted), allowed-program swap, short-data ix, unknown-program ix, flash start/end, and start/end/withdraw/repay via CPI from an allow-listed proxy program} plus random longer shapes; every shape executed as one atomic transaction through the real entry point. Commit-time oracle: no receivership flag / receiver survives; if a third party controlled the account then the shape is in the language written from the statement (start first after compute/whitelisted, end last, only withdraw/repay/record-init between, allowed programs, no CPI), the account was not healthy, health not worse, not ended healthy and premium <= max(fee,5%) unless equity < $5 (definite breaches on enclosures, under both price readings). Non-trivial = committed transactions in which a third party controlled the account; distinct by (shape, world hash).";
+const RULE_C10: &str = "per generated world (2 banks; generated decimals, token programs, weights, oracles; a borrower steered to a generated maintenance health, mostly liquidatable, sometimes healthy; liquidation records created): EXHAUSTIVE enumeration of all transaction shapes up to the stated length over the 31-symbol alphabet (incl. trailing-byte variants of start/end, a start whose observation accounts lack the collateral bank an end without observation accounts, and a deleverage start / end run by the risk admin of an unrelated group) {compute-budget, start(U), start(V), end(U), end(V), withdraw(U) by third party, big withdraw, repay(U), borrow(U), deposit(U), init-record, kamino-refresh (whitelisted), allowed-program swap, short-data ix, unknown-program ix, flash start/end, and start/end/withdraw/repay via CPI from an allow-listed proxy program} plus random longer shapes; every shape executed as one atomic transaction through the real entry point. Commit-time oracle: no receivership flag / receiver survives; if a third party controlled the account then the shape is in the language written from the statement (start first after compute/whitelisted, end last, only withdraw/repay/record-init between, allowed programs, no CPI), the account was not healthy, health not worse, not ended healthy and premium <= max(fee,5%) unless equity < $5 (definite breaches on enclosures, under both price readings). Non-trivial = committed transactions in which a third party controlled the account; distinct by (shape, world hash).";
 const RULE_C11: &str = "per generated world (account normal / frozen / disabled-by-transfer): EXHAUSTIVE enumeration of all transaction shapes up to the stated length over the 31-symbol alphabet (incl. an end for another account that merely lists U, a trailing-byte end, and ends whose observation accounts are missing or lack the borrowed bank) {flash start naming end index 0,1,2,3,4,9 and 65536+0, 65536+1, 2^32+1 (aliases of 0 / 1 under 16- / 32-bit narrowing); end(U); end(V); big borrow (unhealthy); small borrow; big withdraw; deposit; repay_all; classic liquidate(U); bankruptcy(U); start_liquidation(U); end_liquidation(U); transfer(U); close(U); start/end/borrow via CPI; compute-budget} plus random longer shapes, each executed atomically. Oracle: per executed instruction — a start that set the flag named a later end(U) of this program, was top-level, on an unflagged account, not nested; liquidation/bankruptcy/start_liquidation never succeed on a flagged account; at commit — no flash-loan flag survives, and if an action inside left the account initially unhealthy (reference model) then an end(U) follows and the account is not unhealthy at commit. Non-trivial = committed transactions containing a borrow/withdraw that skipped the health check.";
 
 pub fn run(ctx: &Ctx, c10: bool) -> Report {
